@@ -28,8 +28,9 @@ pub const TAG_REMOVED_SOURCE_REVERIFIED: &str = "removed-source-reverified";
 /// the folder it is in, is moved away: the event for the created path is processed when the path
 /// no longer exists.
 pub const TAG_PATH_VANISHED: &str = "path-vanished-before-processing";
-/// Within one window a file is renamed and the new name is then deleted: the debouncer delivers
-/// only the Remove of the new name.
+/// Within one window a file is renamed (or moved in) and the new name is then deleted: the
+/// debouncer delivers only the Remove of the new name, or nothing at all when the file was moved
+/// in over an existing one.
 pub const TAG_RENAME_THEN_REMOVE: &str = "rename-then-remove";
 pub const ALL_TAGS: [&str; 5] =
     [TAG_NON_UTF8_SOURCE, TAG_SCHEMA_FILE_REPLACED, TAG_REMOVED_SOURCE_REVERIFIED, TAG_PATH_VANISHED, TAG_RENAME_THEN_REMOVE];
@@ -40,6 +41,9 @@ pub struct WindowCtx {
     /// paths that came into existence in this window (new files, new folders, rename targets)
     pub fresh: BTreeSet<String>,
     pub rename_targets: BTreeSet<String>,
+    /// folders created in this window: whether notify already watches them when something is
+    /// moved into them is a race, so a move into them may look like a move out of the tree
+    pub fresh_dirs: BTreeSet<String>,
 }
 
 impl WindowCtx {
@@ -47,7 +51,7 @@ impl WindowCtx {
         let mut tags = vec![];
         match op {
             Op::Mv { from, to } => {
-                let leaves_tree = !under(to, "src");
+                let leaves_tree = !under(to, "src") || self.fresh_dirs.iter().any(|d| under(to, d));
                 if self.fresh.iter().any(|f| (f != from && under(f, from)) || (f == from && leaves_tree)) {
                     tags.push(TAG_PATH_VANISHED);
                 }
@@ -69,6 +73,7 @@ impl WindowCtx {
             }
             Op::Mkdir { path } if under(path, "src") => {
                 self.fresh.insert(path.clone());
+                self.fresh_dirs.insert(path.clone());
             }
             Op::Mv { from, to } => {
                 // the names below a moved folder are new as well, but anything below a moved folder
@@ -76,10 +81,11 @@ impl WindowCtx {
                 self.fresh.retain(|f| !under(f, from));
                 self.rename_targets.retain(|f| !under(f, from));
                 if under(to, "src") {
-                    self.fresh.insert(to.clone());
-                    if under(from, "src") {
-                        self.rename_targets.insert(to.clone());
+                    if model_before.dirs.contains(from) {
+                        self.fresh_dirs.insert(to.clone());
                     }
+                    self.fresh.insert(to.clone());
+                    self.rename_targets.insert(to.clone());
                 }
             }
             Op::Rm { path } | Op::Rmrf { path } => {
